@@ -107,6 +107,19 @@ func (m *seqModel) applyAt(s sState, r *plan.Rec, t int64, span int64) []sState 
 		return 0
 	}
 	one := func(x sState) []sState { return []sState{x} }
+	// A relative ttl is turned into a deadline at an instant that is not earlier than the
+	// visibility check of the same operation but may fall into a later millisecond of it.
+	rel := func(v string, exp int64, relative bool) []sState {
+		if !relative || exp == 0 {
+			return one(sState{true, v, exp})
+		}
+		var out []sState
+		for d := int64(0); d <= span; d++ { // span = milliseconds left until the op returned
+			out = append(out, sState{true, v, exp + d})
+		}
+		return out
+	}
+	relTTL := op.EX > 0 || op.PX > 0 || (op.EXAT == 0 && op.PXAT == 0 && m.dttl(dmn) > 0)
 	switch op.K {
 	case "get":
 		if vis {
@@ -135,12 +148,12 @@ func (m *seqModel) applyAt(s sState, r *plan.Rec, t int64, span int64) []sState 
 		if r.Err != "" {
 			return nil
 		}
-		return one(sState{true, op.Val, newExp()})
+		return rel(op.Val, newExp(), relTTL)
 	case "getput":
 		if r.Err != "" || r.Has != vis || (vis && r.Val != s.V) {
 			return nil
 		}
-		return one(sState{true, op.Val, newExp()})
+		return rel(op.Val, newExp(), relTTL)
 	case "incr", "decr":
 		if r.Err != "" {
 			return nil
@@ -169,7 +182,7 @@ func (m *seqModel) applyAt(s sState, r *plan.Rec, t int64, span int64) []sState 
 			}
 			return out
 		}
-		return one(sState{true, nv, newExp()})
+		return rel(nv, newExp(), m.dttl(dmn) > 0)
 	case "expire":
 		if !vis {
 			if r.Err == plan.ENotFound {
@@ -180,7 +193,7 @@ func (m *seqModel) applyAt(s sState, r *plan.Rec, t int64, span int64) []sState 
 		if r.Err != "" {
 			return nil
 		}
-		return one(sState{true, s.V, t + op.Dur})
+		return rel(s.V, t+op.Dur, true)
 	case "del":
 		if r.Err != "" {
 			return nil
@@ -205,7 +218,7 @@ func (m *seqModel) step(r *plan.Rec) (bad []string) {
 		var next []sState
 		for _, s := range sk.states {
 			for t := t0; t <= t1; t++ {
-				next = append(next, m.applyAt(s, r, t, t1-t0)...)
+				next = append(next, m.applyAt(s, r, t, t1-t)...)
 			}
 		}
 		next = dedup(next)
